@@ -390,6 +390,16 @@ func checkC19(p *Prog, r *Report) {
 			}
 			got := len(sp.Results) == 2 && sp.Results[1] == "true"
 			famOK := !got || sp.Has("family(lookup)")
+			if got {
+				// an accepting path has examined both scopes of the rule: a path that accepts without having looked
+				// at the interface or at the CIDR accepts rules whose other restriction excludes the address
+				_, sawIface := sp.Vals["ruleIface"]
+				_, sawCIDR := sp.Vals["cidr"]
+				if !sawIface || !sawCIDR {
+					r.Fail("ruleMappingForLookup row "+sp.String(), sp.EndPos, fmt.Sprintf("the rule is accepted on a path that never examined its interface restriction (%v) / its CIDR restriction (%v): a rule scoped by both is matched although one of them excludes the address", sawIface, sawCIDR))
+					continue
+				}
+			}
 			r.Check(got == want && famOK, "ruleMappingForLookup row "+rowKey(sp, "ruleIface", "ifaceEq", "cidr", "contains", "valid"), sp.EndPos,
 				"accept="+boolStr(want), "the code accepts="+boolStr(got)+" (family from lookup: "+boolStr(famOK)+"), the documentation requires accept="+boolStr(want))
 		}
